@@ -380,3 +380,25 @@ Proof.
 Qed.
 
 End Order.
+
+(** C28 for batches: a member that failed with a retry-class reply is queued again only if retries
+    are enabled, the member is retryable and RetryDelay answered a non-negative delay *)
+Lemma dstep_retry_gate pol cc hasinit attempts fl ps resps d i ii cm r :
+  nth_error ps i = Some (ii, cm) -> nth_error resps i = Some r ->
+  classify r (rf_ctx fl) (rf_closed fl) = ModeRetry ->
+  d_acts (dstep pol cc hasinit attempts fl ps resps d i) <> d_acts d ->
+  p_retry pol = true /\ b_retryable cm = true /\ 0 <= p_delay pol attempts r.
+Proof.
+  intros Ep Er CL Hne. unfold dstep in Hne. rewrite Ep, Er, CL in Hne. cbv zeta in Hne.
+  destruct (true && (negb (p_retry pol && b_retryable cm) || (p_delay pol attempts r <? 0))) eqn:G.
+  - exfalso. apply Hne. reflexivity.
+  - cbn [andb] in G. apply orb_false_iff in G. destruct G as [G1 G2].
+    apply negb_false_iff, andb_true_iff in G1. apply Z.ltb_ge in G2. tauto.
+Qed.
+
+(** … and the retried members make the loop wait: the round's delay is at least theirs *)
+Lemma dstep_none_keeps pol cc hasinit attempts fl ps resps d i ii cm r :
+  nth_error ps i = Some (ii, cm) -> nth_error resps i = Some r ->
+  classify r (rf_ctx fl) (rf_closed fl) = ModeNone ->
+  d_acts (dstep pol cc hasinit attempts fl ps resps d i) = d_acts d.
+Proof. intros Ep Er CL. unfold dstep. rewrite Ep, Er, CL. reflexivity. Qed.
